@@ -48,6 +48,13 @@ def Slot.needsUpdate (k : Slot) (window : Nat) : Bool := decide (k.encrypted > k
 /-- `Timestamp::has_elapsed` granularity (K_GRANULARITY = 1 ms), times are microseconds -/
 def granularity : Nat := 1000
 
+/-- `Timer::is_expired(now)` for an armed timer = `deadline.has_elapsed(now)`: `deadline < now + 1ms` -/
+def timerExpired (deadline now : Nat) : Bool := decide (deadline < now + granularity)
+
+/-- the integrity check of `decrypt_packet` (after `packet_decryption_failures += 1`):
+    `self.decryption_error_count() >= self.aead_integrity_limit` -/
+def integrityReached (failures limit : Nat) : Bool := decide (failures ≥ limit)
+
 /-- `self.generation: u16` -/
 def generationMax : Nat := 65535
 
@@ -149,13 +156,13 @@ def decrypt (r : Repairs) (s : State) (pktPhase : Bool) (pktGen : Option Nat) (p
   else
     -- self.packet_decryption_failures += 1; if count >= self.aead_integrity_limit { AEAD_LIMIT_REACHED }
     let s' := { s with failures := s.failures + 1 }
-    if s'.failures ≥ s'.integrityLimit then (s', .aeadLimit) else (s', .decryptError)
+    if integrityReached s'.failures s'.integrityLimit then (s', .aeadLimit) else (s', .decryptError)
 
 /-- `on_timeout(now)`: `Timer::poll_expiration` (armed and `deadline < now + 1ms`) then derive -/
 def timeout (s : State) (now : Nat) : State :=
   match s.timer with
   | some deadline =>
-    if deadline < now + granularity then ({ s with timer := none }).deriveAndStoreNextKey else s
+    if timerExpired deadline now then ({ s with timer := none }).deriveAndStoreNextKey else s
   | none => s
 
 /-! ### operation histories of one endpoint -/
@@ -177,13 +184,20 @@ def step (r : Repairs) (s : State) : Op → State × Out
   | .decrypt ph g pn la pto => let (s', o) := decrypt r s ph g pn la pto; (s', .dec o)
   | .timeout now => (timeout s now, .tick)
 
-/-- run a history; the second component is the ghost log of the generations of the packets
-    sealed so far, NEWEST FIRST (the packet number of an entry is its distance from the end) -/
+/-- ghost log of the generations of the packets sealed so far, NEWEST FIRST
+    (the packet number of an entry is its distance from the end of the list) -/
+def Out.addTo : Out → List Nat → List Nat
+  | .enc (.sealed _ g), log => g :: log
+  | _, log => log
+
+/-- run a history from a state and a log -/
 def run (r : Repairs) : State × List Nat → List Op → State × List Nat
   | sl, [] => sl
-  | (s, log), op :: ops =>
-    match step r s op with
-    | (s', .enc (.sealed _ g)) => run r (s', g :: log) ops
-    | (s', _) => run r (s', log) ops
+  | (s, log), op :: ops => run r ((step r s op).1, (step r s op).2.addTo log) ops
+
+/-- all outputs of a history, oldest first -/
+def outputs (r : Repairs) : State → List Op → List Out
+  | _, [] => []
+  | s, op :: ops => (step r s op).2 :: outputs r (step r s op).1 ops
 
 end Quic.Conn.KeySet
